@@ -44,13 +44,16 @@ def ddmin(ops, fails, max_tests=400):
     return cur
 
 
-def minimise(machine, cfg, ops, clause, step, max_tests=600):
-    """Return (cfg, ops, n_replays)."""
+def minimise(machine, cfg, ops, clause, step, max_tests=600, replay_clause=None):
+    """Return (cfg, ops, n_replays).  replay_clause(cfg, ops) -> clause id or None; by default an
+    in-process replay, the driver passes one that replays in a pristine child process."""
     count = [0]
 
     def fails_with(c, o):
         count[0] += 1
         try:
+            if replay_clause is not None:
+                return replay_clause(c, o) == clause
             r = machine.replay(c, o)
         except Exception:
             return False
